@@ -628,6 +628,13 @@ class Program:
                 if dotted == "torch.nn.Parameter":
                     ai.kind = PARAM
                     ai.extra = v.args[0] if v.args else None
+                elif dotted == "torch.nn.Buffer":
+                    # self.x = nn.Buffer(t, persistent=..) registers a buffer (torch >= 2.5); any method applied
+                    # to the result (nn.Buffer(t).to(..)) yields a plain tensor and is classified as such
+                    ai.kind = BUFFER
+                    pers = next((k.value for k in v.keywords if k.arg == "persistent"), v.args[1] if len(v.args) > 1 else None)
+                    ai.extra = not (isinstance(pers, ast.Constant) and pers.value is False)
+                    ai.value = v.args[0] if v.args else None
                 elif dotted in ("torch.nn.ModuleList",):
                     ai.kind = MODULELIST
                     ai.extra = self._modulelist_elems(c, v, local_vals)
